@@ -62,24 +62,27 @@ def step (line : String) : String :=
     let mv := match Model.DecodeGo.decodeBlock dst src dict with
       | .ok di d =>
         let im := d ++ rest
-        if di > d.size then s!"ok {di} OVER ; {fnv im im.size}"
-        else s!"ok {di} {fnv d di} ; {fnv im im.size}"
-      | .err d => let im := d ++ rest; s!"err ; {fnv im im.size}"
-    let mv := if src.size == 0 then s!"ok 0 {fnv #[] 0} ; {fnv img img.size}" else mv
+        if di > d.size then s!"ok {di} OVER ; img={fnv im im.size}"
+        else s!"ok {di} {fnv d di} ; img={fnv im im.size}"
+      | .err d => let im := d ++ rest; s!"err ; img={fnv im im.size}"
+    let mv := if src.size == 0 then s!"ok 0 {fnv #[] 0} ; img={fnv img img.size}" else mv
     s!"{mv} | {specDecodeView src dict dlen}"
   | ["DA", dl, dc, nilF, fs, dictH, srcH] =>
     let src := parseHex srcH; let dict := parseHex dictH
     let dst := fill dc.toNat! fs.toNat!
-    let dstBase : Nat := if nilF == "1" then 0 else 0xc000100000
+    -- `UncompressBlock` replaces an empty destination (nil included) by an empty slice of a
+    -- local array, so the decoder always sees a real base address
+    let _ := nilF
+    let dstBase : Nat := 0xc000100000
     let dictBase : Nat := if dict.size == 0 then 0 else 0xc000300000
     let m : Model.DecodeAsm.Mem := ⟨dst, dl.toNat!, src, dict, dstBase, 0xc000200000, dictBase⟩
     let mv := match Model.DecodeAsm.decodeBlock m with
       | .ok (ret, m2) =>
         let d := m2.dst
-        if ret < 0 then s!"err ; {fnv d d.size}"
-        else s!"ok {ret} {fnv d (min ret.toNat d.size)} ; {fnv d d.size}"
-      | .error e => s!"FAULT {e} ; 0"
-    let mv := if src.size == 0 then s!"ok 0 {fnv #[] 0} ; {fnv dst dst.size}" else mv
+        if ret < 0 then s!"err ; img={fnv d d.size}"
+        else s!"ok {ret} {fnv d (min ret.toNat d.size)} ; img={fnv d d.size}"
+      | .error e => s!"FAULT {e} ; img=0"
+    let mv := if src.size == 0 then s!"ok 0 {fnv #[] 0} ; img={fnv dst dst.size}" else mv
     s!"{mv} | {specDecodeView src dict dl.toNat!}"
   | ["CF", _, dl, srcH] =>
     let src := parseHex srcH
